@@ -3,12 +3,13 @@ from .. import scripts, sel as S, worldcheck as W, worldprops as P
 
 PLAN = {"quick": [("overlay", 160), ("probe", 120)], "thorough": [("overlay", 3000), ("probe", 2000)]}
 METAS = ["#enter", "#exit", "#value", "#error", "#loop_i", "#endloop_i"]
+SMETAS = ["#enter", "#exit", "#value", "#error", "#loop_i", "#endloop_i", "#loop_j", "#endloop_j"]
 
 
 def meta_handlers(rng, fns):
     hs = []
     for fn in fns:
-        pick = rng.sample(METAS, rng.randint(2, 4))
+        pick = rng.sample(SMETAS if fn == "s" else METAS, rng.randint(2, 4))
         for m in pick:
             hs.append(W.norm_handler({"kind": "imm", "sel": S.node(fn, [S.cap(m, "m", 1)])}))
         if rng.random() < 0.7:
@@ -25,9 +26,14 @@ def meta_handlers(rng, fns):
 
 def gen_case(rng, cid, mode):
     sc = scripts.gen_script(rng, maxlen=rng.randint(5, 45), maxdepth=4, p_call=0.3, reads=False, p_exit=0.25,
-                            fns=rng.choice(["fg", "f", "fgh"]))
+                            fns=rng.choice(["fg", "f", "fgh", "fs", "fgs"]))
     fns = P.script_fns(sc)
-    return {"id": cid, "script": sc, "arg": 0, "handlers": meta_handlers(rng, fns)}
+    hs = meta_handlers(rng, fns)
+    if "s" in fns:
+        for m in ("#loop_i", "#endloop_i", "#loop_j", "#endloop_j", "#exit", "#error"):
+            hs.append(W.norm_handler({"kind": "imm", "sel": S.node("s", [S.cap(m, "m", 1)])}))
+        hs.append(W.norm_handler({"kind": "imm", "sel": S.node("s", [S.cap("c", "c", 1), S.cap("i", "i", 0), S.cap("j", "j", 0)])}))
+    return {"id": cid, "script": sc, "arg": 0, "handlers": hs}
 
 
 def run(out, tier, seed):
